@@ -121,34 +121,6 @@ op_enabled(const kop_t *op, int nsnaps, int niters) {
 
 /* ---------------- layout / files helpers ---------------- */
 
-/* parse "leveldb.sstables": lines "--- level N ---" then " num:size[...]".
- * Returns number of files; fills nums/levels. */
-static int
-parse_sstables(ldb_t *db, uint64_t *nums, int *levels, int max) {
-  char *s = NULL, *p;
-  int n = 0, level = -1;
-  if (!ldb_property(db, "leveldb.sstables", &s) || !s)
-    return -1;
-  for (p = s; *p;) {
-    char *e = strchr(p, '\n');
-    size_t len = e ? (size_t)(e - p) : strlen(p);
-    if (len > 10 && strncmp(p, "--- level ", 10) == 0) {
-      level = atoi(p + 10);
-    } else if (len > 1 && p[0] == ' ' && p[1] >= '0' && p[1] <= '9') {
-      if (n < max) {
-        nums[n] = strtoull(p + 1, NULL, 10);
-        levels[n] = level;
-        n++;
-      }
-    }
-    if (!e)
-      break;
-    p = e + 1;
-  }
-  ldb_free(s);
-  return n;
-}
-
 typedef struct fstate_s {
   uint64_t iter_files[KH_MAXITER][64];
   int iter_nfiles[KH_MAXITER];
@@ -170,7 +142,7 @@ static int
 files_live_check(khist_t *h, fstate_t *fs, char *err, size_t en) {
   uint64_t nums[64];
   int levels[64], n, i, j;
-  n = parse_sstables(h->db, nums, levels, 64);
+  n = kv_parse_sstables(h->db, nums, levels, 64);
   for (i = 0; i < n; i++)
     if (!file_exists_num(nums[i])) {
       snprintf(err, en, "table #%llu is listed in the current version (level %d) but is gone from the directory",
@@ -184,69 +156,6 @@ files_live_check(khist_t *h, fstate_t *fs, char *err, size_t en) {
                  (unsigned long long)fs->iter_files[j][i], j);
         return 0;
       }
-  return 1;
-}
-
-/* (b) directory holds exactly the live files */
-static int
-files_exact_check(khist_t *h, char *err, size_t en) {
-  char names[256][64];
-  uint64_t nums[64];
-  int levels[64], n, nn, i, j, nlogs = 0, ncur = 0, nman = 0;
-  char cur[128] = "";
-  int ci;
-  n = parse_sstables(h->db, nums, levels, 64);
-  nn = vfs_list(vfs_cur, DB, names, 256);
-  ci = vfs_lookup(vfs_cur, "/vfs/db/CURRENT");
-  if (ci >= 0) {
-    const vinode_t *ino = vfs_inode(vfs_cur, ci);
-    size_t l = ino->len < 100 ? ino->len : 100;
-    memcpy(cur, ino->data, l);
-    cur[l] = 0;
-    if (l && cur[l - 1] == '\n')
-      cur[l - 1] = 0;
-  }
-  for (i = 0; i < nn; i++) {
-    const char *nm = names[i];
-    size_t l = strlen(nm);
-    if (strcmp(nm, "CURRENT") == 0) { ncur++; continue; }
-    if (strcmp(nm, "LOCK") == 0) continue;
-    if (strcmp(nm, "LOG") == 0 || strcmp(nm, "LOG.old") == 0) continue;
-    if (strncmp(nm, "MANIFEST-", 9) == 0) {
-      nman++;
-      if (strcmp(nm, cur) != 0) {
-        snprintf(err, en, "stale descriptor %s left in the directory (CURRENT names %s)", nm, cur);
-        return 0;
-      }
-      continue;
-    }
-    if (l > 4 && strcmp(nm + l - 4, ".log") == 0) { nlogs++; continue; }
-    if (l > 4 && (strcmp(nm + l - 4, ".ldb") == 0 || strcmp(nm + l - 4, ".sst") == 0)) {
-      uint64_t num = strtoull(nm, NULL, 10);
-      for (j = 0; j < n; j++)
-        if (nums[j] == num)
-          break;
-      if (j == n) {
-        snprintf(err, en, "orphan table file %s (not part of the current version) left after the operation completed", nm);
-        return 0;
-      }
-      continue;
-    }
-    if (l > 6 && strcmp(nm + l - 6, ".dbtmp") == 0) {
-      snprintf(err, en, "temporary file %s left in the directory", nm);
-      return 0;
-    }
-    snprintf(err, en, "unexpected file %s in the database directory", nm);
-    return 0;
-  }
-  if (ncur != 1 || nman != 1) {
-    snprintf(err, en, "directory has %d CURRENT and %d MANIFEST files", ncur, nman);
-    return 0;
-  }
-  if (nlogs != 1) {
-    snprintf(err, en, "%d write-ahead logs left after the operation completed (expected exactly the live one)", nlogs);
-    return 0;
-  }
   return 1;
 }
 
@@ -281,7 +190,7 @@ layout_signature(khist_t *h, int *levels_mask) {
   uint64_t nums[64];
   int levels[64], n, i, cnt[8] = {0};
   uint64_t s = 5;
-  n = parse_sstables(h->db, nums, levels, 64);
+  n = kv_parse_sstables(h->db, nums, levels, 64);
   *levels_mask = 0;
   for (i = 0; i < n; i++)
     if (levels[i] >= 0 && levels[i] < 7) {
@@ -454,7 +363,7 @@ body(void *arg) {
     int was_iters = h.niters;
     if (o_files && op->kind == OP_CRANGE) {
       int lv[64];
-      fs.nbefore = parse_sstables(h.db, fs.before, lv, 64);
+      fs.nbefore = kv_parse_sstables(h.db, fs.before, lv, 64);
     }
     rc = kh_apply(&h, op);
     obs = vh_mix(obs, (uint64_t)rc);
@@ -472,7 +381,7 @@ body(void *arg) {
     if (o_files) {
       if (op->kind == OP_ITOPEN && h.niters > was_iters) {
         int lv[64];
-        fs.iter_nfiles[h.niters - 1] = parse_sstables(h.db, fs.iter_files[h.niters - 1], lv, 64);
+        fs.iter_nfiles[h.niters - 1] = kv_parse_sstables(h.db, fs.iter_files[h.niters - 1], lv, 64);
       } else if (op->kind == OP_ITCLOSE && h.niters < was_iters) {
         int j;
         for (j = op->idx; j + 1 < KH_MAXITER; j++) {
@@ -503,10 +412,10 @@ body(void *arg) {
       if (!ko_held_iters(&h)) { fail(x, "held-iterator-broken", h.err); break; }
       if (op->kind == OP_CRANGE) {
         uint64_t after[64];
-        int lv[64], na = parse_sstables(h.db, after, lv, 64);
+        int lv[64], na = kv_parse_sstables(h.db, after, lv, 64);
         structural = (na != fs.nbefore) || memcmp(after, fs.before, sizeof(uint64_t) * (size_t)(na > 0 ? na : 0)) != 0;
       }
-      if (structural && !h.iter_open_at_structural && !files_exact_check(&h, e, sizeof(e))) { fail(x, "garbage-left", e); break; }
+      if (structural && !h.iter_open_at_structural && !kv_files_exact_check(h.db, DB, e, sizeof(e))) { fail(x, "garbage-left", e); break; }
       if (!files_reuse_check(e, sizeof(e))) { fail(x, "file-number-reused", e); break; }
     }
   }
